@@ -103,3 +103,145 @@ def run_cli(chains, options, on_system):
         sys.argv = argv0
         os.chdir(cwd)
         shutil.rmtree(root, ignore_errors=True)
+
+
+# ------------------------------------------------------------------------------------------------------------------
+# C03 extension: richer inputs (added; the functions above are used by other checks and keep their behaviour)
+
+def benzene_lines(chain_id, resid, centre):
+    """One benzene molecule (HETATM, residue BENZ: known to the charmm force field and mapped to Martini 3, so it
+    survives the pipeline as a NON-protein molecule of three beads).  Returns [(record, name, resname, element, x, y, z)]."""
+    import math
+    out = []
+    names = [('CG', 'HG'), ('CD1', 'HD1'), ('CE1', 'HE1'), ('CZ', 'HZ'), ('CE2', 'HE2'), ('CD2', 'HD2')]
+    for i, (c, h) in enumerate(names):
+        a = math.pi / 3 * i
+        for name, r, el in ((c, 1.40, 'C'), (h, 2.48, 'H')):
+            out.append(('HETATM', name, 'BENZ', el, centre[0] + r * math.cos(a), centre[1] + r * math.sin(a), centre[2]))
+    return out
+
+
+def chains_of(codes, labels='ABCDEFGHIJKLMNOPQRSTUVWXYZ', **common):
+    """'PsLP' -> chain descriptions for build_input: upper case = the peptide as shipped, lower case = the same peptide in a
+    DIFFERENT conformation (stretched along z), 'L' = a benzene ligand."""
+    return [dict({'code': c.upper(), 'label': labels[i], 'stretch': 1.08 if (c.islower() and c != 'l') else 1.0}, **common)
+            for i, c in enumerate(codes)]
+
+
+def _chain_atoms(ch, ci, spacing):
+    """[(record, atomname, resname, resnum, element, x, y, z)] of one chain, in file order.
+    Residue numbering: ch['start'] (number of the first residue; None = as shipped), ch['gap'] = [k, jump]: from the k-th
+    residue (0-based) on the numbers are shifted by jump.  ch['noh']: hydrogens left out."""
+    if ch['code'] == 'L':
+        resid = ch.get('start') or 1
+        return [(rec, name, resname, resid, el, x + ci * spacing, y, z)
+                for rec, name, resname, el, x, y, z in benzene_lines(ch['label'], resid, (10.0, 40.0, 40.0))]
+    path = os.path.join(TESTS, PEPTIDES[ch['code']], 'aa.pdb')
+    lines = [ln.ljust(80) for ln in open(path).read().splitlines() if ln.startswith('ATOM')]
+    order = []
+    for ln in lines:
+        if ln[22:27] not in order:
+            order.append(ln[22:27])
+    start, gap = ch.get('start'), ch.get('gap')
+    out = []
+    for ln in lines:
+        r = order.index(ln[22:27])
+        num = int(ln[22:26]) if start is None else start + r
+        if gap and r >= gap[0]:
+            num += gap[1]
+        name, el = ln[12:16].strip(), ln[76:78].strip()
+        if ch.get('noh') and (el == 'H' or (not el and name.lstrip('0123456789').startswith('H'))):
+            continue
+        out.append(('ATOM', name, ln[17:20].strip(), num, el, float(ln[30:38]) + ci * spacing, float(ln[38:46]),
+                    float(ln[46:54]) * ch.get('stretch', 1.0)))
+    return out
+
+
+def build_input(spec):
+    """spec = {'fmt': 'pdb' | 'gro', 'models': [[chain, ...], ...]} (chain descriptions as made by chains_of).
+    PDB: one MODEL / ENDMDL pair per model when there are several; chains closed by TER, chain identifier = label.
+    GRO: the chains of the first model one after the other (the format has no chains; residue numbers up to 99999)."""
+    spacing = 60.0
+    models = spec['models']
+    if spec.get('fmt', 'pdb') == 'gro':
+        atoms = [a for ci, ch in enumerate(models[0]) for a in _chain_atoms(ch, ci, spacing)]
+        out = ['verif C03 input', '%5d' % len(atoms)]
+        for i, (_rec, name, resname, num, _el, x, y, z) in enumerate(atoms, 1):
+            out.append('%5d%-5s%5s%5d%8.3f%8.3f%8.3f' % (num % 100000, resname, name, i % 100000, x / 10, y / 10, z / 10))
+        out.append('  90.00000  90.00000  90.00000')
+        return '\n'.join(out) + '\n'
+    out = ['CRYST1  900.000  900.000  900.000  90.00  90.00  90.00 P 1           1']
+    for mi, chains in enumerate(models, 1):
+        if len(models) > 1:
+            out.append('MODEL     %4d' % mi)
+        serial = 1
+        for ci, ch in enumerate(chains):
+            for rec, name, resname, num, el, x, y, z in _chain_atoms(ch, ci, spacing):
+                col = name if len(name) == 4 else ' ' + name
+                out.append('%-6s%5d %-4s %-4s%s%4d    %8.3f%8.3f%8.3f  1.00  0.00          %2s'
+                           % (rec, serial % 100000, col, resname, ch['label'], num, x, y, z, el))
+                serial += 1
+            out.append('TER')
+            serial += 1
+        if len(models) > 1:
+            out.append('ENDMDL')
+    out.append('END')
+    return '\n'.join(out) + '\n'
+
+
+def run_cli_input(text, options, on_system, in_name='in.pdb', x_name='cg.pdb', top_name='topol.top', extra_files=None,
+                  on_written=None):
+    """Like run_cli, for an input TEXT: `martinize2 -f <in_name> -x <x_name> -o <top_name> <options>` in a scratch directory
+    (extra_files: {name: text} written next to the input, e.g. a Go contact map).  on_system(system) sees the live System
+    just before the real write_gmx_topology runs.  on_written(root) runs after the command returned, still inside the
+    scratch directory (e.g. to read the written files back with the repository's own readers).
+    Returns {'rc', 'files', 'captured', 'written', 'argv', 'log'}."""
+    root = tempfile.mkdtemp(prefix='c03cli_')
+    cwd = os.getcwd()
+    argv0 = list(sys.argv)
+    captured = {}
+    log = io.StringIO()
+    inputs = {in_name}
+    try:
+        os.chdir(root)
+        with open(in_name, 'w') as fh:
+            fh.write(text)
+        for name, body in (extra_files or {}).items():
+            with open(name, 'w') as fh:
+                fh.write(body)
+            inputs.add(name)
+        with contextlib.redirect_stderr(log), contextlib.redirect_stdout(log):
+            cli = load_cli()
+        real_write = cli.write_gmx_topology
+
+        def interposed(system, *args, **kwargs):
+            captured['value'] = on_system(system)
+            return real_write(system, *args, **kwargs)
+
+        cli.write_gmx_topology = interposed
+        argv = ['-f', in_name, '-x', x_name, '-o', top_name] + list(options)
+        sys.argv = ['martinize2'] + argv
+        rc = 0
+        with contextlib.redirect_stderr(log), contextlib.redirect_stdout(log):
+            try:
+                cli.entry()
+            except SystemExit as exc:
+                rc = exc.code if isinstance(exc.code, int) else (0 if exc.code is None else 1)
+            except Exception as exc:      # noqa - reported by the caller
+                rc = 'exception %r' % (exc,)
+        files = {}
+        for name in sorted(os.listdir(root)):
+            if name in inputs or os.path.isdir(name):
+                continue
+            with open(name, errors='replace') as fh:
+                files[name] = fh.read()
+        written = None
+        if on_written is not None and rc == 0:
+            with contextlib.redirect_stderr(log), contextlib.redirect_stdout(log):
+                written = on_written(root)
+        return {'rc': rc, 'files': files, 'captured': captured.get('value'), 'written': written, 'argv': ' '.join(argv),
+                'log': log.getvalue()[-2000:]}
+    finally:
+        sys.argv = argv0
+        os.chdir(cwd)
+        shutil.rmtree(root, ignore_errors=True)
